@@ -84,6 +84,8 @@ Proof. apply Forall_app_intro || (intros; apply Forall_app; auto). Qed.
 Lemma loop_only_repeat n : loop_only (repeat L.TLoop n).
 Proof. induction n; constructor; auto. Qed.
 
+Ltac lo := unfold loop_only; repeat (apply Forall_cons; [auto|]); apply Forall_nil.
+
 (* the history a sequence of queueInLoop calls of thread [who] leaves *)
 Definition qlog (w : bool) (who : nat) (ts : list nat) : list L.ev :=
   flat_map (fun t => L.ESub who t :: (if w then [L.EWake who] else [])) ts.
@@ -105,13 +107,13 @@ Lemma run_qcode sh scr ts : forall g pc rest ln fc, L.code_ctx pc = true ->
                       (L.calling g) (L.looping g) (L.log g ++ qlog w 0 ts)) pc rest ln fc).
 Proof.
   induction ts as [|t r IH]; intros g pc rest ln fc Hc w.
-  - cbn. destruct g; cbn. rewrite !app_nil_r, Nat.add_0_r. destruct w; reflexivity.
+  - subst w. destruct g as [p0 e0 q0 qt0 c0 l0 lg0]; cbn. destruct (L.wake sh true c0 l0); rewrite !app_nil_r, Nat.add_0_r; reflexivity.
   - replace (2 * length (t :: r)) with (S (S (2 * length r))) by (cbn [length]; lia).
     cbn [repeat map app L.run].
     assert (E1 : L.step sh scr (L.mkSt g pc (L.MQueue t :: map L.MQueue r ++ rest) ln fc) L.TLoop =
                  Some (L.mkSt (L.mkG (L.pending g ++ [t]) (L.evfd g) (L.evq g) (L.quit g) (L.calling g) (L.looping g)
                                      (L.log g ++ [L.ESub 0 t])) pc (L.MWakeTest :: map L.MQueue r ++ rest) ln fc)).
-    { destruct pc; try discriminate; reflexivity. }
+    { destruct pc as [| | |wk| |b| |]; try discriminate; [|destruct wk|destruct b]; reflexivity. }
     rewrite E1.
     set (g1 := L.mkG (L.pending g ++ [t]) (L.evfd g) (L.evq g) (L.quit g) (L.calling g) (L.looping g)
                      (L.log g ++ [L.ESub 0 t])).
@@ -119,14 +121,274 @@ Proof.
                  Some (L.mkSt (if w then L.mkG (L.pending g1) (S (L.evfd g1)) (L.evq g1) (L.quit g1) (L.calling g1)
                                                 (L.looping g1) (L.log g1 ++ [L.EWake 0]) else g1)
                               pc (map L.MQueue r ++ rest) ln fc)).
-    { destruct pc; try discriminate; cbn [L.step L.sg L.pc L.lcode L.exec_mop L.calling L.looping g1];
+    { destruct pc as [| | |wk| |b| |]; try discriminate; [|destruct wk|destruct b];
+        cbn [L.step L.sg L.pc L.lcode L.exec_mop L.calling L.looping g1];
         fold w; destruct w; reflexivity. }
     rewrite E2. subst g1. fold w.
     destruct w eqn:Ew.
     + rewrite IH by exact Hc. cbn [L.pending L.evfd L.evq L.quit L.calling L.looping L.log].
-      fold w. rewrite Ew. cbn [qlog flat_map]. rewrite <- !app_assoc. cbn [app length].
-      do 2 f_equal. f_equal. lia.
+      fold w. rewrite Ew. cbn [qlog flat_map length]. rewrite <- !app_assoc. cbn [app].
+      replace (S (L.evfd g) + length r) with (L.evfd g + S (length r)) by lia. reflexivity.
     + rewrite IH by exact Hc. cbn [L.pending L.evfd L.evq L.quit L.calling L.looping L.log].
-      fold w. rewrite Ew. cbn [qlog flat_map]. rewrite <- !app_assoc. cbn [app length].
-      do 2 f_equal. f_equal. lia.
+      fold w. rewrite Ew. cbn [qlog flat_map length]. rewrite <- !app_assoc. cbn [app]. reflexivity.
+Qed.
+
+(* scripts that only queue: script n = [queueInLoop (q n)_1; queueInLoop (q n)_2; ...] *)
+Definition pure_q (scr : L.scripts) (q : nat -> list nat) : Prop := forall n, scr n = map L.AQueue (q n).
+
+(* the history the batch b leaves: each functor is started (EExecQ) and queues what q says *)
+Definition blog (w : bool) (q : nat -> list nat) (b : list nat) : list L.ev :=
+  flat_map (fun t => L.EExecQ t :: qlog w 0 (q t)) b.
+
+Lemma execq_blog w q b : L.execq (blog w q b) = b.
+Proof.
+  induction b as [|t r IH]; [reflexivity|]. unfold blog. cbn [flat_map].
+  rewrite execq_app. fold (blog w q r). rewrite IH.
+  change (L.execq (L.EExecQ t :: qlog w 0 (q t))) with (t :: L.execq (qlog w 0 (q t))).
+  rewrite execq_qlog. reflexivity.
+Qed.
+
+Lemma run_batch sh scr q : pure_q scr q -> forall b g ln fc,
+  let w := L.wake sh true (L.calling g) (L.looping g) in
+  exists labs, loop_only labs /\
+    L.run sh scr (L.mkSt g (L.LRun b) [] ln fc) labs =
+    Some (L.mkSt (L.mkG (L.pending g ++ flat_map q b) (L.evfd g + (if w then length (flat_map q b) else 0))
+                        (L.evq g) (L.quit g) (L.calling g) (L.looping g) (L.log g ++ blog w q b))
+                 (L.LRun []) [] ln fc).
+Proof.
+  intros Hq. induction b as [|t b IH]; intros g ln fc w.
+  - exists []. split; [constructor|]. subst w. destruct g as [p0 e0 q0 qt0 c0 l0 lg0]; cbn.
+    destruct (L.wake sh true c0 l0); rewrite !app_nil_r, Nat.add_0_r; reflexivity.
+  - set (g1 := L.mkG (L.pending g) (L.evfd g) (L.evq g) (L.quit g) (L.calling g) (L.looping g)
+                     (L.log g ++ [L.EExecQ t])).
+    assert (E1 : L.step sh scr (L.mkSt g (L.LRun (t :: b)) [] ln fc) L.TLoop =
+                 Some (L.mkSt g1 (L.LRun b) (map L.MQueue (q t) ++ []) ln fc)).
+    { cbn [L.step L.sg L.pc L.lcode]. rewrite (Hq t), expand_queues, app_nil_r. reflexivity. }
+    pose proof (run_qcode sh scr (q t) g1 (L.LRun b) [] ln fc eq_refl) as E2. cbn zeta in E2.
+    set (g2 := L.mkG (L.pending g1 ++ q t)
+                     (L.evfd g1 + (if L.wake sh true (L.calling g1) (L.looping g1) then length (q t) else 0))
+                     (L.evq g1) (L.quit g1) (L.calling g1) (L.looping g1)
+                     (L.log g1 ++ qlog (L.wake sh true (L.calling g1) (L.looping g1)) 0 (q t))) in *.
+    destruct (IH g2 ln fc) as (labs & Hl & E3).
+    exists (L.TLoop :: repeat L.TLoop (2 * length (q t)) ++ labs). split.
+    + constructor; [auto|]. apply loop_only_app; [apply loop_only_repeat|exact Hl].
+    + cbn [L.run]. rewrite E1, run_app, E2, E3. subst g2 g1.
+      cbn [L.pending L.evfd L.evq L.quit L.calling L.looping L.log]. fold w.
+      cbn [flat_map]. unfold blog. cbn [flat_map]. rewrite app_length.
+      destruct w; rewrite <- !app_assoc; cbn [app]; do 3 f_equal; lia.
+Qed.
+
+Lemma step_poll_event sh scr g c0 ln fc k r : L.evq g = k :: r ->
+  L.step sh scr (L.mkSt g L.LPoll c0 ln fc) L.TLoop =
+  Some (L.mkSt (L.mkG (L.pending g) (L.evfd g) r (L.quit g) (L.calling g) (L.looping g) (L.log g))
+               (L.LHandle (0 <? L.evfd g)) (L.expand_all true (scr k)) ln fc).
+Proof.
+  intros E. cbn [L.step L.sg L.pc L.lcode]. unfold L.poll_ready. rewrite E. rewrite orb_true_r. reflexivity.
+Qed.
+
+Lemma step_poll_wake sh scr g c0 ln fc : L.evq g = [] -> 0 < L.evfd g ->
+  L.step sh scr (L.mkSt g L.LPoll c0 ln fc) L.TLoop = Some (L.mkSt g (L.LHandle true) [] ln fc).
+Proof.
+  intros E H. cbn [L.step L.sg L.pc L.lcode]. unfold L.poll_ready. rewrite E.
+  destruct (Nat.ltb_spec 0 (L.evfd g)); [reflexivity|lia].
+Qed.
+
+(* THE LOOP THREAD'S ITERATION, steps L3..L7 of DESIGN B.2 with no foreign thread in between:
+   poll returns (an event k is ready and/or the wake-up descriptor is readable), handleRead drains
+   the wake-up descriptor, the callback of k queues hqs, callingPendingFunctors_ := true, the queue
+   is swapped out, the batch [ran] = queue at poll time ++ hqs runs in order, each functor queueing
+   what q says (and waking as the guard says), callingPendingFunctors_ := false. *)
+Theorem c04_iteration sh scr q : pure_q scr q -> forall g c0 ln fc,
+  L.calling g = false -> L.looping g = true -> L.poll_ready g = true ->
+  let hqs := match L.evq g with k :: _ => q k | [] => [] end in
+  let w1 := L.wake sh true false true in
+  let w2 := L.wake sh true true true in
+  let ran := L.pending g ++ hqs in
+  let pend' := flat_map q ran in
+  exists labs, loop_only labs /\
+    L.run sh scr (L.mkSt g L.LPoll c0 ln fc) labs =
+    Some (L.mkSt (L.mkG pend' ((if w1 then length hqs else 0) + (if w2 then length pend' else 0))
+                        (tl (L.evq g)) (L.quit g) false true
+                        (L.log g ++ qlog w1 0 hqs ++ blog w2 q ran))
+                 L.LTest [] ln fc).
+Proof.
+  intros Hq g c0 ln fc Hc Hl Hp hqs w1 w2 ran pend'.
+  destruct g as [p0 e0 q0 qt0 cl0 lo0 lg0]. cbn [L.calling L.looping L.evq L.pending L.quit L.log] in *. subst cl0 lo0.
+  (* phase 1: poll return, handleRead, callback: reach LHandle false with empty code *)
+  assert (Ph1 : exists labs1, loop_only labs1 /\
+            L.run sh scr (L.mkSt (L.mkG p0 e0 q0 qt0 false true lg0) L.LPoll c0 ln fc) labs1 =
+            Some (L.mkSt (L.mkG (p0 ++ hqs) (if w1 then length hqs else 0) (tl q0) qt0 false true
+                                (lg0 ++ qlog w1 0 hqs)) (L.LHandle false) [] ln fc)).
+  { destruct q0 as [|k r].
+    - (* only the wake-up descriptor is readable *)
+      unfold L.poll_ready in Hp. cbn [L.evfd L.evq negb orb] in Hp. rewrite orb_false_r in Hp.
+      apply Nat.ltb_lt in Hp.
+      exists [L.TLoop; L.TRead]. split; [lo|].
+      cbn [L.run]. rewrite step_poll_wake by (cbn; auto). cbn [L.step L.sg L.pc L.lcode L.lnext L.fcode
+        L.pending L.evq L.quit L.calling L.looping L.log].
+      subst hqs. cbn [tl length qlog flat_map]. rewrite !app_nil_r. destruct w1; reflexivity.
+    - pose proof (run_qcode sh scr (q k)) as RQ.
+      destruct (Nat.ltb_spec 0 e0) as [Hpos|Hz].
+      + exists (L.TLoop :: L.TRead :: repeat L.TLoop (2 * length (q k))). split.
+        { constructor; [auto|]. constructor; [auto|]. apply loop_only_repeat. }
+        cbn [L.run]. rewrite (step_poll_event sh scr (L.mkG p0 e0 (k :: r) qt0 false true lg0) c0 ln fc k r eq_refl).
+        cbn [L.evfd L.pending L.quit L.calling L.looping L.log].
+        destruct (Nat.ltb_spec 0 e0) as [_|]; [|lia].
+        cbn [L.step L.sg L.pc L.lcode L.lnext L.fcode L.pending L.evq L.quit L.calling L.looping L.log].
+        rewrite (Hq k), expand_queues, <- (app_nil_r (map L.MQueue (q k))).
+        rewrite RQ by reflexivity. cbn [L.pending L.evfd L.evq L.quit L.calling L.looping L.log].
+        subst hqs. cbn [tl]. fold w1. reflexivity.
+      + assert (e0 = 0) by lia. subst e0.
+        exists (L.TLoop :: repeat L.TLoop (2 * length (q k))). split.
+        { constructor; [auto|]. apply loop_only_repeat. }
+        cbn [L.run]. rewrite (step_poll_event sh scr (L.mkG p0 0 (k :: r) qt0 false true lg0) c0 ln fc k r eq_refl).
+        cbn [L.evfd L.pending L.quit L.calling L.looping L.log Nat.ltb Nat.leb].
+        rewrite (Hq k), expand_queues, <- (app_nil_r (map L.MQueue (q k))).
+        rewrite RQ by reflexivity. cbn [L.pending L.evfd L.evq L.quit L.calling L.looping L.log].
+        subst hqs. cbn [tl]. fold w1. reflexivity. }
+  destruct Ph1 as (labs1 & Hl1 & E1).
+  (* phase 2: callingPendingFunctors_ = true; swap; batch; callingPendingFunctors_ = false *)
+  set (g3 := L.mkG [] (if w1 then length hqs else 0) (tl q0) qt0 true true (lg0 ++ qlog w1 0 hqs)).
+  destruct (run_batch sh scr q Hq ran g3 ln fc) as (labs3 & Hl3 & E3).
+  exists (labs1 ++ [L.TLoop; L.TLoop] ++ labs3 ++ [L.TLoop]). split.
+  { apply loop_only_app; [exact Hl1|]. apply loop_only_app; [lo|].
+    apply loop_only_app; [exact Hl3|lo]. }
+  rewrite run_app, E1. rewrite run_app. cbn [L.run L.step L.sg L.pc L.lcode L.lnext L.fcode L.set_flags
+    L.pending L.evfd L.evq L.quit L.calling L.looping L.log].
+  fold ran. fold g3. rewrite run_app, E3. subst g3.
+  cbn [L.run L.step L.sg L.pc L.lcode L.lnext L.fcode L.set_flags
+       L.pending L.evfd L.evq L.quit L.calling L.looping L.log app].
+  fold w2. fold pend'. rewrite <- app_assoc. reflexivity.
+Qed.
+
+(* ========================================================================================== *)
+(* 3. The link                                                                                  *)
+(* ========================================================================================== *)
+(* what is related: a C04 state whose loop thread is about to poll (steady state of loop():
+   not draining, looping) and the (environment, queue) pair C09's run carries from one iteration
+   to the next: same wake-up counter, same queue *)
+Record Rq (s : L.st) (e : P.kenv) (p : list nat) : Prop := {
+  rq_pc : L.pc s = L.LPoll;
+  rq_calling : L.calling (L.sg s) = false;
+  rq_looping : L.looping (L.sg s) = true;
+  rq_wake : N.of_nat (L.evfd (L.sg s)) = P.k_wake e;
+  rq_pending : L.pending (L.sg s) = p }.
+
+Lemma functors_queued_q fb q ids : (forall i, In i ids -> snd (fb i) = q i) -> P.functors_queued fb ids = flat_map q ids.
+Proof.
+  unfold P.functors_queued. induction ids as [|i r IH]; intros H; [reflexivity|].
+  cbn [flat_map]. rewrite (H i (or_introl eq_refl)), IH; [reflexivity|]. intros j Hj. apply H. now right.
+Qed.
+
+(* L2a, HEADLINE.  Whatever back-end, channels, callbacks and Channel-API calls are involved: the
+   queue behaviour C09 attributes to one iteration is what the loop thread of C04's transition
+   system does between its poll and the end of its batch when no foreign thread moves - same batch
+   in the same order, same left-over queue, same wake-up counter.  Hypotheses: the wake-up guard is
+   the same function (qw = wake sh); functors and callbacks only queue (pure_q; what functor i
+   queues is q i on both sides); the batch's callbacks queue what the event C04 dispatches queues;
+   C04's poll has a reason to return; handleRead drains the wake-up descriptor. *)
+Theorem c09_iteration_is_c04_schedule S step h hq fb runs eff wfd tfd sh scr q s st e pending choice
+    st' e' pend' act log ran :
+  P.loop_iter_full_env S step h hq fb runs eff (L.wake sh) wfd tfd st e pending choice
+    = P.Ok (st', e', pend', (act, log, ran)) ->
+  Rq s e pending ->
+  pure_q scr q -> (forall i, In i ran -> snd (fb i) = q i) ->
+  flat_map (fun ck => hq (fst ck) (snd ck)) log = (match L.evq (L.sg s) with k :: _ => q k | [] => [] end) ->
+  L.poll_ready (L.sg s) = true ->
+  P.k_wake (P.apply_effects eff log e) = 0%N ->
+  exists labs s', loop_only labs /\ L.run sh scr s labs = Some s' /\
+    L.pc s' = L.LTest /\ L.lcode s' = [] /\
+    L.calling (L.sg s') = false /\ L.looping (L.sg s') = true /\
+    L.fcode s' = L.fcode s /\ L.lnext s' = L.lnext s /\ L.quit (L.sg s') = L.quit (L.sg s) /\
+    L.evq (L.sg s') = tl (L.evq (L.sg s)) /\
+    N.of_nat (L.evfd (L.sg s')) = P.k_wake e' /\
+    L.pending (L.sg s') = pend' /\
+    L.execq (L.log (L.sg s')) = L.execq (L.log (L.sg s)) ++ ran.
+Proof.
+  intros Hit [Hpc Hcal Hloop Hw Hp] Hq Hfb Hhq Hready Hdr.
+  apply c09_iteration_queue_view in Hit. rewrite Hdr, Hhq in Hit. unfold q_iter in Hit.
+  assert (Hran : ran = pending ++ match L.evq (L.sg s) with k :: _ => q k | [] => [] end) by congruence.
+  rewrite Hran in Hfb. rewrite (functors_queued_q fb q _ Hfb) in Hit.
+  destruct s as [g pc lc ln fc]. cbn [L.sg L.pc L.lcode L.lnext L.fcode] in *. subst pc pending.
+  destruct (c04_iteration sh scr q Hq g lc ln fc Hcal Hloop Hready) as (labs & Hlo & Hrun).
+  cbn zeta in Hrun. eexists labs, _. split; [exact Hlo|]. split; [exact Hrun|].
+  cbn [L.sg L.pc L.lcode L.lnext L.fcode L.pending L.evfd L.evq L.quit L.calling L.looping L.log].
+  injection Hit as -> -> ->.
+  repeat split.
+  - destruct (L.wake sh true false true), (L.wake sh true true true); lia.
+  - rewrite !execq_app, execq_qlog, execq_blog. reflexivity.
+Qed.
+
+(* after the batch the loop thread tests quit_ and polls again: the relation is re-established *)
+Lemma c04_test_to_poll sh scr s e p :
+  L.pc s = L.LTest -> L.quit (L.sg s) = false -> L.calling (L.sg s) = false -> L.looping (L.sg s) = true ->
+  N.of_nat (L.evfd (L.sg s)) = P.k_wake e -> L.pending (L.sg s) = p ->
+  exists s', L.step sh scr s L.TLoop = Some s' /\ Rq s' e p /\ L.sg s' = L.sg s /\ L.fcode s' = L.fcode s.
+Proof.
+  intros Hpc Hq Hc Hl Hw Hp. destruct s as [g pc lc ln fc]. cbn [L.sg L.pc] in *. subst pc.
+  cbn [L.step L.sg L.pc L.lcode]. rewrite Hq. eexists. split; [reflexivity|].
+  split; [constructor; cbn [L.sg L.pc]; auto|split; reflexivity].
+Qed.
+
+Lemma nth_error_upd {A} (l : list A) : forall i x y, nth_error l i = Some y -> nth_error (L.upd l i x) i = Some x.
+Proof.
+  induction l as [|a r IH]; intros [|i] x y H; cbn in *; try discriminate; [reflexivity|].
+  exact (IH i x y H).
+Qed.
+
+(* C09's external event "a task is queued from another thread between two iterations" is the
+   foreign thread's two micro-steps while the loop thread is in poll: the append (one critical
+   section) and the guarded wakeup(); same queue, same wake-up counter afterwards *)
+Theorem c09_xqueue_is_c04_foreign sh scr s e p i j rest :
+  Rq s e p -> nth_error (L.fcode s) j = Some (L.MQueue i :: rest) ->
+  exists s', L.run sh scr s [L.TF j; L.TF j] = Some s' /\
+    Rq s' (fst (P.apply_ext (L.wake sh) (e, p) (P.XQueue i))) (snd (P.apply_ext (L.wake sh) (e, p) (P.XQueue i))) /\
+    nth_error (L.fcode s') j = Some rest /\
+    L.execq (L.log (L.sg s')) = L.execq (L.log (L.sg s)).
+Proof.
+  intros [Hpc Hcal Hloop Hw Hp] Hn. destruct s as [g pc lc ln fc]. cbn [L.sg L.pc L.fcode] in *. subst pc.
+  set (g1 := L.mkG (L.pending g ++ [i]) (L.evfd g) (L.evq g) (L.quit g) (L.calling g) (L.looping g)
+                   (L.log g ++ [L.ESub (S j) i])).
+  set (fc1 := L.upd fc j (L.MWakeTest :: rest)).
+  assert (E1 : L.step sh scr (L.mkSt g L.LPoll lc ln fc) (L.TF j) = Some (L.mkSt g1 L.LPoll lc ln fc1)).
+  { cbn [L.step L.sg L.pc L.lcode L.lnext L.fcode]. rewrite Hn. reflexivity. }
+  assert (Hn1 : nth_error fc1 j = Some (L.MWakeTest :: rest)) by (eapply nth_error_upd; exact Hn).
+  set (g2 := if L.wake sh false false true
+             then L.mkG (L.pending g1) (S (L.evfd g1)) (L.evq g1) (L.quit g1) (L.calling g1) (L.looping g1)
+                        (L.log g1 ++ [L.EWake (S j)])
+             else g1).
+  assert (E2 : L.step sh scr (L.mkSt g1 L.LPoll lc ln fc1) (L.TF j) = Some (L.mkSt g2 L.LPoll lc ln (L.upd fc1 j rest))).
+  { cbn [L.step L.sg L.pc L.lcode L.lnext L.fcode]. rewrite Hn1. cbn [L.exec_mop].
+    subst g2 g1. cbn [L.calling L.looping]. rewrite Hcal, Hloop.
+    destruct (L.wake sh false false true); reflexivity. }
+  exists (L.mkSt g2 L.LPoll lc ln (L.upd fc1 j rest)). split; [cbn [L.run]; rewrite E1, E2; reflexivity|].
+  cbn [P.apply_ext fst snd L.sg L.fcode].
+  split; [|split; [eapply nth_error_upd; exact Hn1|]].
+  - subst g2 g1. destruct (L.wake sh false false true); constructor;
+      cbn [L.sg L.pc L.pending L.evfd L.calling L.looping P.wake_add P.k_wake]; try assumption; try congruence; lia.
+  - subst g2 g1. destruct (L.wake sh false false true); cbn [L.log]; rewrite !execq_app; cbn; rewrite !app_nil_r; reflexivity.
+Qed.
+
+(* C09's run invariant [pend_inv e p] (a non-empty queue comes with a non-zero wake-up counter at
+   every poll) is C04's invariant [NoStall] read at the poll when no thread is between its append
+   and its wake-up *)
+Theorem pend_inv_is_nostall sh s e p : Rq s e p -> L.midwake sh s = false ->
+  (LP.NoStall sh s <-> PP.pend_inv e p).
+Proof.
+  intros [Hpc Hcal Hloop Hw Hp] Hm. unfold LP.NoStall, PP.pend_inv. rewrite Hpc, Hm, Hp. cbn [L.will_drain].
+  split.
+  - intros [H|[H|[H|H]]] Hne; try discriminate; [contradiction|lia].
+  - intros H. destruct p as [|x r]; [left; reflexivity|]. right; left.
+    assert (0 < P.k_wake e)%N by (apply H; discriminate). lia.
+Qed.
+
+(* hence C09_queued_task_wakes' invariant holds at every poll of every schedule of C04's
+   transition system (any number of foreign threads, any programs), by C04_no_stall *)
+Corollary c04_reach_pend_inv sh scr prefix later progs s e p :
+  L.wake_ok sh = true -> LP.reach sh scr (L.init prefix later progs) s ->
+  Rq s e p -> L.midwake sh s = false -> PP.pend_inv e p.
+Proof.
+  intros W Hr HR Hm. apply (pend_inv_is_nostall sh s e p HR Hm).
+  unfold L.wake_ok in W. apply andb_true_iff in W as [W1 W2].
+  eapply LP.no_stall_reach; eauto.
 Qed.
